@@ -151,6 +151,7 @@ type Runner struct {
 	Facets   Facet
 	// AbortFacet / AbortMsg: the disagreement on a facet this property does not judge that ended the case (ErrAbort)
 	AbortFacet, AbortMsg string
+	Unjudged             int // disagreements on unjudged facets passed over so far in this case
 	M        map[int]*MEntry
 	St       RunStats
 
@@ -275,6 +276,14 @@ func (r *Runner) fail(f Facet, format string, args ...any) error {
 		return &Violation{Facet: f, Step: r.step, Msg: msg}
 	}
 	r.AbortFacet, r.AbortMsg = facetNames[f], msg
+	// A disagreement on a facet this property does not judge used to end the case; a judged disagreement that the same
+	// defect causes a few steps later was then never seen (C12-O, C20-O). The first few are passed over now - the case goes
+	// on with the model's view - and only a pile-up ends it. On the unchanged tree no facet ever disagrees, so nothing changes
+	// there; with a changed tree every disagreement, judged or not, is a real difference from the model.
+	r.Unjudged++
+	if r.Unjudged <= 3 {
+		return nil
+	}
 	return ErrAbort
 }
 
